@@ -292,7 +292,7 @@ func drawC09(t *rapid.T) C09Case {
 func TestC09(t *testing.T) {
 	rec := obs.New("C09")
 	defer rec.Flush(true)
-	rec.SetExtra("rule", "rapid: goal-directed token (authority + 0-3 later blocks; with or without a root key id, 0 included; sometimes composed over a custom base symbol table) T, S = T.Seal(), a panel of 4 generated authorizers and 2 queries, reload of S, and one of 11 sealed-envelope mutations (seal signature bits, last block / announced key / signature bits, seal from another sealed token of the same or another issuer, seal replaced by a secret, attacker seal, seal computed without the last signature, last block dropped, last two swapped, attacker block appended). Oracle: S verifies under the same root; outcome class and query results of S and of reloaded S equal those of T for every panel member; revocation ids equal; Append and Seal on S and on reloaded S return an error and no token; the mutated envelope is rejected, in agreement with the reference chain walk. Non-trivial = T has >= 1 later block and the panel has both an allowed and a refused member; distinct by (token, panel, mutation).")
+	rec.SetExtra("rule", "rapid: goal-directed token (authority + 0-3 later blocks; with or without a root key id, 0 included; sometimes composed over a custom base symbol table) T, S = T.Seal(), a panel of 4 generated authorizers and 2 queries, reload of S, and one of 12 sealed-envelope mutations (seal replaced by a 64-byte secret whose second half is the announced key, seal signature bits, last block / announced key / signature bits, seal from another sealed token of the same or another issuer, seal replaced by a secret, attacker seal, seal computed without the last signature, last block dropped, last two swapped, attacker block appended). Oracle: S verifies under the same root; outcome class and query results of S and of reloaded S equal those of T for every panel member; revocation ids equal; Append and Seal on S and on reloaded S return an error and no token; the mutated envelope is rejected, in agreement with the reference chain walk. Non-trivial = T has >= 1 later block and the panel has both an allowed and a refused member; distinct by (token, panel, mutation).")
 	rec.SetExtra("assumptions", []string{"crypto/ed25519 trusted", "equality between sealed and unsealed twins is asserted on every generated case, whatever its verdict"})
 	harness.RunWith(t, harness.Spec[C09Case]{ID: "C09", Draw: drawC09, Check: checkC09}, rec)
 }
